@@ -23,7 +23,8 @@ META = {
 }
 
 SCHEMA_TEXT = {0: None, 1: "{not json", 2: '{"type": 12}', 3: '{"type": "integer", "maximum": 10}',
-               4: '{"$ref": "defs.json#/definitions/small"}'}
+               4: '{"$ref": "defs.json#/definitions/small"}',
+               5: '{"type": "integer", "maximum": 11, "exclusiveMaximum": true}'}      # a Draft 4 schema that Draft 7's metaschema rejects
 DEFS_TEXT = '{"definitions": {"small": {"type": "integer", "maximum": 10}}}'
 # instance states: 0 missing, 1 not JSON, 2 valid, 3 one error, 4 two errors
 INSTANCE_TEXT = {0: None, 1: "[1,", 2: "3", 3: "12", 4: "12.5"}
@@ -96,6 +97,7 @@ def run_cli(schema_state, states, pretty, custom_format, explicit_validator, use
 def expected(schema_state, states, pretty, use_stdin):
     if schema_state in (0, 1, 2):
         return 1, 0, 1
+    # (schema 5 behaves like schema 3 for the catalogue instances: 3 valid, 12 and 12.5 invalid with 1 and 2 errors)
     sts = list(states)
     if use_stdin:
         sts = sts[:1]
@@ -115,7 +117,7 @@ def expected(schema_state, states, pretty, use_stdin):
 
 def run(schema_state, n, pretty, mode="plain"):
     custom = mode == "custom-format"
-    explicit = mode == "explicit-validator"
+    explicit = mode in ("explicit-validator", "explicit-validator-d4-schema")
     use_stdin = mode == "stdin"
 
     def pre(states):
@@ -137,7 +139,8 @@ def run(schema_state, n, pretty, mode="plain"):
             lib = 0
             for s in states:
                 if s >= 2:
-                    lib += len(list(cls({"type": "integer", "maximum": 10}).iter_errors(json.loads(INSTANCE_TEXT[s]))))
+                    lib_schema = json.loads(SCHEMA_TEXT[5]) if schema_state == 5 else {"type": "integer", "maximum": 10}
+                    lib += len(list(cls(lib_schema).iter_errors(json.loads(INSTANCE_TEXT[s]))))
                 else:
                     lib += 1
             ok = err.n == lib
@@ -189,10 +192,11 @@ def conditions(tier, seed, active):
                 tags = ["exit1"] if ss < 3 else ["exit0", "exit1"]
                 out.append(dict(id="run/schema%d/%s/n%d" % (ss, "pretty" if pretty else "plain", n), module=__name__, factory="run",
                                 params=dict(schema_state=ss, n=n, pretty=pretty), timeout=900, tags=tags, witness=tags if n <= 2 else []))
-    for mode in ("custom-format", "explicit-validator", "stdin"):
+    for mode in ("custom-format", "explicit-validator", "stdin", "explicit-validator-d4-schema"):
         for n in ((1, 2) if mode != "stdin" else (1,)):
             tags = ["exit0", "exit1"]
             out.append(dict(id="run/%s/n%d" % (mode, n), module=__name__, factory="run",
-                            params=dict(schema_state=3, n=n, pretty=False, mode=mode), timeout=600, tags=tags, witness=tags))
+                            params=dict(schema_state=5 if mode.endswith("d4-schema") else 3, n=n, pretty=False, mode=mode), timeout=600,
+                            tags=tags, witness=tags))
     out.append(dict(id="parse_args", module=__name__, factory="parse_rules", params={}, timeout=300, tags=["parsed", "usage-error"], witness=["parsed"]))
     return out
